@@ -23,6 +23,7 @@ structure Community where
   circuits : List Circuit      -- `self.circuits` (dict: insertion order, unique ids)
   nextId : Nat                 -- next circuit id handed out by create_circuit (ids are opaque tokens)
   canCreate : Bool             -- whether create_circuit finds a first hop / exit candidate
+  failAfter : Option Nat       -- fault injection: how many more `send_cell` calls succeed before one raises
 deriving Repr, DecidableEq
 
 /-- an endpoint listener registered with the wrapped endpoint: id and its `anonymize` attribute (if it has one) -/
@@ -51,6 +52,9 @@ inductive Event
   | create (hops : Nat) (flags : Option (List Nat)) (made : Option Nat)
   /-- ghost event: the packet is gone without having been handed to anybody (no community / queue overflow) -/
   | drop (overflow : Bool) (a : Addr) (p : Bytes)
+  /-- ghost event: `send_data` raised for this packet; the exception propagates to the caller of `send`, the packet
+      (already taken off the queue, if it came from there) is gone -/
+  | fail (a : Addr) (p : Bytes)
   /-- `listener.on_packet` via `_deliver_later` -/
   | deliver (lid : Nat)
 deriving Repr, DecidableEq
@@ -66,6 +70,11 @@ inductive Op
   | close (idx : Nat)
   | remove (idx : Nat)
   | setCanCreate (b : Bool)
+  /-- environment: the (k+1)-th `send_cell` from now raises (serializer / crypto error), once -/
+  | setFail (k : Option Nat)
+  /-- `TunnelCommunity.__init__` on this endpoint: `set_tunnel_community(self)` (default hops) and
+      `set_anonymity(self._prefix, False)` for the tunnel community's own prefix -/
+  | attachCommunity (pfx : Bytes)
   /-- `TunnelCommunity.remove_circuit(circuit_id, …)` up to its `await sleep(remove_tunnel_delay)`: the destroy is sent
       and `Circuit.close()` marks the circuit CLOSING at once (this is also what `on_destroy` and `do_remove` trigger) -/
   | removeRequest (cid : Nat)
@@ -127,7 +136,7 @@ def Community.create (cm : Community) (goalHops : Nat) (ctype : CType) : Communi
 
 def init (cap : Nat) : State :=
   { cap := cap, settings := [], queue := [], hops := initHops, attached := false,
-    comm := { circuits := [], nextId := 1, canCreate := true }, listeners := [] }
+    comm := { circuits := [], nextId := 1, canCreate := true, failAfter := none }, listeners := [] }
 
 /-- `self.settings.get(packet[:22], False)` -/
 def State.anonymized (s : State) (p : Bytes) : Bool :=
@@ -137,6 +146,31 @@ def State.anonymized (s : State) (p : Bytes) : Bool :=
 def dataEv (c : Circuit) (x : Addr × Bytes) : Event :=
   .data c.cid (c.firstHop?.map (·.addr)) x.1 x.2
 
+/-- the circuit `send` uses: the first READY one among those `find_circuits` returns
+    (`next((c for c in circuits if c.state == CIRCUIT_STATE_READY), None)`) -/
+def Community.pick (cm : Community) (hops : Nat) : Option Circuit :=
+  (cm.find hops).find? (fun c => c.state == .ready)
+
+/-- how many of `n` consecutive `send_data` calls succeed -/
+def okCalls (f : Option Nat) (n : Nat) : Nat :=
+  match f with
+  | none => n
+  | some k => min k n
+
+/-- the fault counter after `n` attempted calls (it fires at most once) -/
+def nextFail (f : Option Nat) (n : Nat) : Option Nat :=
+  match f with
+  | none => none
+  | some k => if k < n then none else some (k - n)
+
+/-- the READY branch of `send`: the new packet first, then the backlog, oldest first (`popleft` before each call), all
+    over circuit `c`; a `send_data` that raises ends the method: what was popped for it is gone, the rest stays queued -/
+def sendOver (s : State) (c : Circuit) (a : Addr) (p : Bytes) : State × List Event :=
+  let all := (a, p) :: s.queue
+  let n := okCalls s.comm.failAfter all.length
+  ({ s with queue := all.drop (n + 1), comm := { s.comm with failAfter := nextFail s.comm.failAfter all.length } },
+   (all.take n).map (dataEv c) ++ (match all[n]? with | some x => [.fail x.1 x.2] | none => []))
+
 /-- `TunnelEndpoint.send` -/
 def send (s : State) (a : Addr) (p : Bytes) : State × List Event :=
   if !s.anonymized p then
@@ -144,19 +178,17 @@ def send (s : State) (a : Addr) (p : Bytes) : State × List Event :=
   else if !s.attached then
     (s, [.drop false a p])                                      -- tunnel_community is None: falls off the end
   else
-    match (s.comm.find s.hops).head? with                       -- circuits[0] if circuits else None
+    match s.comm.pick s.hops with
     | none =>
-      let (cm, made) := s.comm.create (sendCreateHops s.hops) sendCreateCtype
-      let (q, lost) := dequeAppend s.cap s.queue (a, p)
-      ({ s with comm := cm, queue := q },
-       .create (sendCreateHops s.hops) sendCreateFlags made :: lost.map (fun x => .drop true x.1 x.2))
-    | some c =>
-      if c.state ≠ .ready then
+      if (s.comm.find s.hops).isEmpty then                      -- `if not circuits:` recreate tunnel when needed
+        let (cm, made) := s.comm.create (sendCreateHops s.hops) sendCreateCtype
+        let (q, lost) := dequeAppend s.cap s.queue (a, p)
+        ({ s with comm := cm, queue := q },
+         .create (sendCreateHops s.hops) sendCreateFlags made :: lost.map (fun x => .drop true x.1 x.2))
+      else
         let (q, lost) := dequeAppend s.cap s.queue (a, p)
         ({ s with queue := q }, lost.map (fun x => .drop true x.1 x.2))
-      else
-        -- the new packet first, then the backlog, oldest first, all over the same circuit
-        ({ s with queue := [] }, dataEv c (a, p) :: s.queue.map (dataEv c))
+    | some c => sendOver s c a p
 
 /-- `TunnelEndpoint.notify_listeners(packet, from_tunnel)` -/
 def notify (s : State) (fromTunnel : Bool) : List Event :=
@@ -181,6 +213,9 @@ def step (s : State) : Op → State × List Event
       ({ s with comm := { s.comm with circuits := modifyAt (fun c => { c with closing := true }) s.comm.circuits i } }, [])
   | .remove i => ({ s with comm := { s.comm with circuits := s.comm.circuits.eraseIdx i } }, [])
   | .setCanCreate b => ({ s with comm := { s.comm with canCreate := b } }, [])
+  | .setFail k => ({ s with comm := { s.comm with failAfter := k } }, [])
+  | .attachCommunity pfx =>
+      ({ s with attached := true, hops := defaultTcHops, settings := dictSet s.settings pfx false }, [])
   | .removeRequest cid => ({ s with comm := { s.comm with circuits := closeById cid s.comm.circuits } }, [])
   | .removeDone cid => ({ s with comm := { s.comm with circuits := popById cid s.comm.circuits } }, [])
   | .addListener l => ({ s with listeners := s.listeners ++ [l] }, [])
